@@ -300,6 +300,21 @@ def run_case(case):
                 R.bad("average-between-parts", "C20:weighted-outside-min-max-of-parts[transition-parameters]", {"pop": p, "outputs": [ra, rb], "index": i_, "value": float(pw[i_]), "parts": [float(pa[i_]), float(pb[i_])]})
             else:
                 R.ok("average-between-parts")
+    # a formula of number quantities is a number quantity: with the default method its value for a group of populations is the sum
+    # of its values for the members, like the named aggregation of the same outputs
+    if len(ords) >= 2:
+        frm = {"fsum": "%s+%s" % (ords[0], ords[1])}
+        try:
+            per_f = [series_of(call([frm], [p]), p, "fsum") for p in pops]
+            tot_f = series_of(call([frm], [{"Total": list(pops)}]), "Total", "fsum")
+            tot_n = series_of(call([{"fsum": [ords[0], ords[1]]}], [{"Total": list(pops)}]), "Total", "fsum")
+            R.count("additivity_checks")
+            if not (np.allclose(tot_f, np.sum(per_f, axis=0), rtol=1e-12, atol=0) and np.allclose(tot_f, tot_n, rtol=1e-12, atol=0)):
+                R.bad("total=sum-over-populations", "C20:total-of-a-formula-of-numbers-differs-from-population-sum[default]", {"formula": frm, "total": tot_f[:3].tolist(), "sum_of_members": np.sum(per_f, axis=0)[:3].tolist(), "named_aggregation": tot_n[:3].tolist()})
+            else:
+                R.ok("total=sum-over-populations")
+        except Exception as e:
+            R.count("total_call_failed[%s]" % type(e).__name__)
     for q in [ords[0], "alive"] + flows[:1]:
         try:
             per = [series_of(call([q], [p]), p, q) for p in pops]
